@@ -1,0 +1,15 @@
+//go:build verif
+
+package polling
+
+import "github.com/smartcontractkit/chainlink-automation/internal/util"
+
+// SetRecoverableServiceVerifHook installs (or, with nil, removes) the callback of
+// the instrumentation points of internal/util.RecoverableService, which wraps
+// the polling observer's head loop. It only forwards to internal/util (see
+// verif_on.go there): an internal package cannot be imported by the
+// verification harness (/verif, property C18). Compiled only with the build tag
+// `verif`.
+func SetRecoverableServiceVerifHook(f func(point string, args ...any)) {
+	util.SetVerifHook(f)
+}
